@@ -31,7 +31,8 @@ import (
 type Value interface{}
 
 type Cell struct {
-	V Value
+	V     Value
+	Owner int // thread that allocated the cell (scheduler)
 	// Shared marks cells reachable from more than one goroutine (scheduler).
 	ID int
 }
@@ -259,7 +260,7 @@ func (ex *Exec) alloc(t types.Type) *Cell {
 // cellOf creates storage holding v.
 func (ex *Exec) cellOf(v Value) *Cell {
 	ex.cellSeq++
-	c := &Cell{ID: ex.cellSeq}
+	c := &Cell{ID: ex.cellSeq, Owner: ex.curThread()}
 	switch x := v.(type) {
 	case *Struct:
 		so := &StructObj{F: make([]*Cell, len(x.F))}
